@@ -86,6 +86,7 @@ func (srv *Srv) auth(req *SrvReq) {
 func (srv *Srv) authPost(req *SrvReq) {
 	if req.Rc != nil && req.Rc.Type == Rauth {
 		req.Afid.IncRef()
+		req.Afid.publish()
 	}
 }
 
@@ -149,6 +150,7 @@ func (srv *Srv) attachPost(req *SrvReq) {
 	if req.Rc != nil && req.Rc.Type == Rattach {
 		req.Fid.Type = req.Rc.Qid.Type
 		req.Fid.IncRef()
+		req.Fid.publish()
 	}
 }
 
@@ -255,6 +257,7 @@ func (srv *Srv) walkPost(req *SrvReq) {
 
 	if req.Newfid.fid != req.Fid.fid {
 		req.Newfid.IncRef()
+		req.Newfid.publish()
 	}
 }
 
